@@ -15,6 +15,29 @@ def check(F, rep):
     cl = find_calls(run, regex=r"mpsc::bounded::Receiver::close$")
     rm = find_calls(run, regex=r"mpsc::bounded::Receiver::recv_many$")
     rc = find_calls(run, regex=r"mpsc::bounded::Receiver::recv$")
+    helper_site = None
+    if not cl and not rm:
+        # close + drain moved into a private async helper awaited by run():
+        # the helper must close before draining and return the buffer it filled
+        from ..inline import _callee
+        for b, t in run.calls():
+            h = _callee(F, run, t)
+            if h is None or h.file != run.file or h.vis == "pub" or h.kind not in ("Fn", "AssocFn") or helper_site is not None:
+                continue
+            for hb in F.tree(h):
+                hc = find_calls(hb, regex=r"mpsc::bounded::Receiver::close$")
+                hr = find_calls(hb, regex=r"mpsc::bounded::Receiver::recv_many$")
+                if len(hc) == 1 and len(hr) == 1:
+                    rep.fn(hb)
+                    buf = arg_ref_target(hb, hr[0][1]["args"][1])
+                    rets = [(bb, i, rv) for bb, i, rv in returns_of(hb) if i is not None]
+                    ret_ok = any(buf in copy_source_locals_(hb, op_base(rv["o"])) for bb, i, rv in rets if rv["k"] == "use" and rv["o"]["k"] in ("copy", "move")) or any(rv["k"] == "agg" and any(op_base(o) is not None and buf in copy_source_locals_(hb, op_base(o)) for o in rv["ops"]) for bb, i, rv in rets)
+                    rep.ob("must_precede", hb.dominates(hc[0][0], hr[0][0]) and ret_ok, site(hb, hr[0][0]), "helper %s closes the inbox before draining it and returns the buffer the drain filled" % h.npath.rsplit("::", 1)[-1], skey(F, hb, "helper-close-before-drain"))
+                    recv_arg = copy_sources(run, op_base(t["args"][0])) if t["args"] else set()
+                    helper_site = (b, t, h)
+        if helper_site is not None:
+            cl = [(helper_site[0], helper_site[1])]
+            rm = [(helper_site[0], helper_site[1])]
     rep.exact("hand-off", "inbox.close() calls", len(cl), 1)
     rep.exact("hand-off", "inbox.recv_many() calls", len(rm), 1)
     rep.exact("hand-off", "inbox.recv() calls", len(rc), 1)
@@ -26,9 +49,10 @@ def check(F, rep):
         rets = [(b, i, rv) for b, i, rv in returns_of(run) if i is not None and rv["k"] == "agg" and rv["ak"] == "tuple"]
         rep.exact("hand-off", "tuple returns (endpoint id, leftovers)", len(rets), 1)
         for b, i, rv in rets:
-            buf = arg_ref_target(run, rm[0][1]["args"][1])
+            buf = arg_ref_target(run, rm[0][1]["args"][1]) if helper_site is None else None
             s_ = copy_sources(run, op_base(rv["ops"][1]))
-            rep.ob("provenance", bool(s_) and all(x[0] == "place" and x[1] == buf or (x[0] == "call" and x[1].endswith("with_capacity")) for x in s_), site(run, b), "the returned leftovers are the buffer the drain filled; %s" % sorted(map(str, s_)), skey(F, run, "returns-drained"))
+            hname = helper_site[2].npath if helper_site is not None else None
+            rep.ob("provenance", bool(s_) and all((x[0] == "place" and x[1] == buf) or (x[0] == "call" and x[1].endswith("with_capacity")) or (hname is not None and x[0] == "call" and x[1] == hname) for x in s_), site(run, b), "the returned leftovers are the buffer the drain filled; %s" % sorted(map(str, s_)), skey(F, run, "returns-drained"))
             e_ = copy_sources(run, op_base(rv["ops"][0]))
             rep.ob("provenance", bool(e_) and all(x[2][-2:] == ("state", "endpoint_id") for x in e_ if len(x) == 3), site(run, b), "together with this actor's own endpoint id; %s" % sorted(map(str, e_)), skey(F, run, "returns-own-id"))
         hm = find_calls(run, RSA + "::handle_message")
@@ -104,3 +128,11 @@ def check(F, rep):
     cs = call_sites(F, RM + "Tasks::start_remote_state_actor", crates=["iroh"])
     for f, b, t, kind in cs:
         rep.ob("who_calls", source_fn(F, f) in (RM + "RemoteMap::send_to_actor", RM + "RemoteMap::remove_or_restart_actor"), site(f, b), "start_remote_state_actor called from %s" % source_fn(F, f), skey(F, f, "start-caller"))
+
+
+def copy_source_locals_(f, l):
+    out = {l}
+    for x in copy_sources(f, l):
+        if x[0] in ("place", "arg"):
+            out.add(x[1])
+    return out
